@@ -1119,6 +1119,22 @@ def _m_struct_pack(ctx, fmt, *values):
     return struct_pack(ctx, fmt, values)
 
 
+import copy as _copy
+
+
+@register(_copy.copy)
+def _m_copy(ctx, x):
+    """copy.copy: a shallow copy - for an instance of a repository class without __copy__ a new instance of the same class holding the same attribute values"""
+    from .interp import SObj
+    if isinstance(x, SObj):
+        if any(hasattr(x.cls, m) for m in ('__copy__', '__reduce_ex__')) and any(m in vars(k) for k in x.cls.__mro__[:-1] for m in ('__copy__', '__reduce__', '__reduce_ex__', '__getstate__', '__setstate__')):
+            raise Unsupported('copy.copy of %s, which customises copying' % x.cls.__name__)
+        return SObj(x.cls, dict(x.attrs))
+    if is_sym(x):
+        return x
+    return _copy.copy(x)
+
+
 @register(struct.unpack)
 def _m_struct_unpack(ctx, fmt, data):
     return struct_unpack(ctx, fmt, data, 0, True)
